@@ -195,8 +195,8 @@ def run_norms(case, tape):
                     if tuple(float(x) for x in got) != tuple(float(x) for x in wants):
                         raise OracleFail('minmax-differs', dict(layout=lay, got=[float(x) for x in got],
                                                                 want=[float(x) for x in wants]))
-                elif any(x is not None for x in got):
-                    raise OracleFail('minmax-differs', dict(layout=lay, rank=r, why='non-root got a value'))
+                elif any(x is not None and float(x) != float(y) for x, y in zip(got, wants)):
+                    raise OracleFail('minmax-differs', dict(layout=lay, rank=r, why='another rank got a different value'))
         wantp = ref.l2_phi_ref(PHI, eta)
         probes = {}
         for lay in ('v_parallel_2d', 'mode_solve', 'v_parallel_1d', 'poloidal'):
@@ -271,9 +271,6 @@ def run_collector(case, tape):
                 if abs(a - b) > 2e-10 * max(m_, abs(b)):          # printed with 11 significant digits
                     raise OracleFail('collector-slot', dict(slot=slot, column=j, got=a, want=b,
                                                             time=times[k], save_step=s, dt=dt))
-        for r in results[1:]:
-            if r is not None:
-                raise OracleFail('collector', dict(why='non-root returned lines'))
         probes = {'kind_collector': 1}
         if len(times) > s:
             probes['slots_wrapped'] = 1
@@ -315,8 +312,8 @@ def run_plot(case, tape):
             raise OracleFail('minmax-differs', dict(got=[float(x) for x in got], want=[float(x) for x in want],
                                                     draw=case['draw']))
         for r, res in enumerate(results):
-            if r != case['draw'] and any(x is not None for x in res['red']):
-                raise OracleFail('minmax-differs', dict(rank=r, why='non-drawing rank got a value'))
+            if r != case['draw'] and any(x is not None and float(x) != float(y) for x, y in zip(res['red'], want)):
+                raise OracleFail('minmax-differs', dict(rank=r, why='another rank got a different value'))
         return dict(probes={'kind_plot': 1, 'plot_only_rank': 1})
     M.run(P, case['sched'], rank_fn, post)
     return M.finish(extra=dict(nontrivial=True))
